@@ -2,7 +2,7 @@
    Property theorems only; proofs are in Proofs1-5.v. *)
 From Coq Require Import List NArith Bool.
 From TV Require Import Lib.Obs Lib.C21_Utf8 Lib.C21_Pct C31.Model C31.Spec C31.Run
-     C31.Proofs1 C31.Proofs2 C31.Proofs3 C31.Proofs4 C31.Proofs5 C31.Proofs6.
+     C31.Proofs1 C31.Proofs2 C31.Proofs3 C31.Proofs4 C31.Proofs5 C31.Proofs6 C31.Proofs7.
 Import ListNotations.
 Local Open Scope N_scope.
 
@@ -68,6 +68,7 @@ Print Assumptions C31_router_equals_first_match_spec.
    only way to parse the URL. *)
 Theorem C31_reverse_then_match_returns_arguments :
   forall pm args u,
+    pm_whole pm = true ->
     spec_url (rx_pieces (pm_rx pm)) args = Some u ->
     Forall bytes args ->
     representable (rx_pieces (pm_rx pm)) args ->
@@ -80,6 +81,7 @@ Print Assumptions C31_reverse_then_match_returns_arguments.
    character set and is last or followed by a literal outside that set *)
 Theorem C31_reverse_then_match_with_unambiguous_separators :
   forall pm args u,
+    pm_whole pm = true ->
     spec_url (rx_pieces (pm_rx pm)) args = Some u ->
     Forall bytes args ->
     representable (rx_pieces (pm_rx pm)) args ->
@@ -126,7 +128,7 @@ Theorem C31_plain_pattern_compiles_to_its_structure :
     exists pm, compile_path (pat_text segs) = Some pm /\
                rx_pieces (pm_rx pm) = map seg_piece segs /\ pm_faithful pm.
 Proof.
-  intros segs H. destruct (compile_plain_pattern segs H) as (pm & Hc & Hp & Hr).
+  intros segs H. destruct (compile_plain_pattern segs H) as (pm & Hc & Hp & _ & Hr).
   exists pm. repeat split; try assumption. intros args u Hu. apply Hr. rewrite <- Hp. exact Hu.
 Qed.
 Print Assumptions C31_plain_pattern_compiles_to_its_structure.
@@ -148,12 +150,52 @@ Proof.
 Qed.
 Print Assumptions C31_reverse_url_routes_back.
 
-(* the model satisfies the checker on reverse cases, for configurations whose
-   path patterns are faithful (partial: faithfulness is proved for plainly written
-   patterns, not for every pattern text of the fragment) *)
-Theorem C31_model_satisfies_checker_on_reverse_partial :
-  forall hs hosts dh dflt name args host,
-    (forall a, compile_app hs hosts dh dflt = Some a -> forall p, In p (app_paths a) -> pm_faithful p) ->
-    let i := (hs, hosts, dh, dflt, OpReverse name args host) in check_case i (run_case i) = true.
-Proof. exact check_case_reverse_faithful. Qed.
-Print Assumptions C31_model_satisfies_checker_on_reverse_partial.
+(* the same without any hypothesis on the patterns, for every configuration that
+   compiles: inside the scope (which requires the named pattern to be plainly
+   written, as recognised by plain_segs) reverse_url returns the URL read off the
+   pattern and that URL routes back to the rule's handler with the arguments *)
+Theorem C31_compiled_app_reverse_url_routes_back :
+  forall hs hosts dh dflt a name args host u h,
+    compile_app hs hosts dh dflt = Some a ->
+    roundtrip_expect a name args host = Some (u, h) ->
+    app_reverse a name args = Some (RvOk u) /\
+    app_find a (mk_request host u false) = RtHandler h args.
+Proof.
+  intros hs hosts dh dflt a name args host u h Ha Hr. split.
+  - exact (reverse_agrees_wf a (compile_app_wf _ _ _ _ _ Ha) _ _ _ _ _ Hr).
+  - exact (roundtrip_routes _ _ _ _ _ _ Hr).
+Qed.
+Print Assumptions C31_compiled_app_reverse_url_routes_back.
+
+(* the recogniser of plainly written pattern texts used in that scope is sound *)
+Theorem C31_plain_recogniser_sound :
+  forall t segs, plain_segs t = Some segs -> Forall seg_ok segs /\ pat_text segs = t.
+Proof. exact plain_segs_sound. Qed.
+Print Assumptions C31_plain_recogniser_sound.
+
+(* the model satisfies the checker applied to the implementation on EVERY case *)
+Theorem C31_model_satisfies_checker : forall i, check_case i (run_case i) = true.
+Proof. exact check_case_model. Qed.
+Print Assumptions C31_model_satisfies_checker.
+
+(* Host: name:port is routed exactly like Host: name (split_host_and_port) *)
+Theorem C31_host_port_does_not_affect_routing :
+  forall a h ds uri x,
+    h <> [] -> ds <> [] -> forallb is_digit ds = true -> ~ In 58 h ->
+    app_find a (mk_request (h ++ 58 :: ds) uri x) = app_find a (mk_request h uri x).
+Proof.
+  intros a h ds uri x Hh Hd Hdig Hc. f_equal. unfold mk_request at 1 2.
+  change (mkReq (rq_host (mk_request (h ++ 58 :: ds) uri x)) (before_q uri) x =
+          mkReq (rq_host (mk_request h uri x)) (before_q uri) x).
+  rewrite (host_port_ignored h ds uri x Hh Hd Hdig), (host_without_colon h uri x Hc). reflexivity.
+Qed.
+Print Assumptions C31_host_port_does_not_affect_routing.
+
+(* both PathMatches code paths (string pattern: fullmatch / precompiled re.Pattern:
+   match): a hit exactly when the pattern accepts the path in the respective sense *)
+Theorem C31_path_matcher_semantics_both_code_paths :
+  forall p path,
+    (exists args, pm_match p path = MHit args) \/ pm_match p path = MErr <->
+    exists caps, pm_parse p path caps.
+Proof. exact path_matcher_semantics. Qed.
+Print Assumptions C31_path_matcher_semantics_both_code_paths.
